@@ -5,6 +5,7 @@ import (
 	"math"
 	"math/big"
 	"math/rand/v2"
+	"os"
 	"strconv"
 	"strings"
 	"sync"
@@ -469,9 +470,22 @@ var (
 
 func avoidInit() {
 	avoidOnce.Do(func() {
-		avoidRatioRadix = fw.FindingOpen("C03", "obj=ratio cfg=radix ctx=top mode=any class=small fail=read-error:parse-error")
-		avoidArrayRadix = fw.FindingOpen("C03", "obj=struct cfg=radix ctx=as-is mode=any class=#2A(fixnum) fail=read-error:parse-error")
-		avoidQuestionSym = fw.FindingOpen("C03", "obj=sym cfg=any ctx=top mode=any class=constituent:U+003F fail=read-error:parse-error")
+		// Default: avoid. The entries are lifted only when the findings file was
+		// read and parsed, lists findings of this check, and none of the open
+		// ones matches (a file caught in the middle of being rewritten must not
+		// change the case list).
+		avoidRatioRadix, avoidArrayRadix, avoidQuestionSym = true, true, true
+		root := os.Getenv("VERIF_ROOT")
+		if root == "" {
+			root = "."
+		}
+		fs := fw.LoadFindings(root+"/known_findings.json", "C03")
+		if len(fs) == 0 {
+			return
+		}
+		avoidRatioRadix = fw.MatchFinding(fs, "obj=ratio cfg=radix ctx=top mode=any class=small fail=read-error:parse-error") != nil
+		avoidArrayRadix = fw.MatchFinding(fs, "obj=struct cfg=radix ctx=as-is mode=any class=#2A(fixnum) fail=read-error:parse-error") != nil
+		avoidQuestionSym = fw.MatchFinding(fs, "obj=sym cfg=any ctx=top mode=any class=constituent:U+003F fail=read-error:parse-error") != nil
 	})
 }
 
